@@ -4,7 +4,7 @@
 //! A case line is an abstract dump model (compact text, see `Model::parse`):
 //!   roundtrip fl=<flags> pad=<0|1> T=<threads> M=<modules> R=<regions> I=<meminfo> N=<thread names>
 //!             U=<unloaded> X=<exception|-> S=<system info|-> D=<extra raw streams>
-//!             [Y=<misc info|->] [H=<handle data|->]
+//!             [Y=<misc info|->] [H=<handle data|->] [L=<Linux maps|->]
 //!             (optional trailing fields: absent = the model has no such stream)
 //!
 //! `exec` serializes the model with **minidump-synth** (a foreign serializer: directory last, data
@@ -460,6 +460,219 @@ impl Handles {
     }
 }
 
+/// the path column of a `/proc/<pid>/maps` line
+#[derive(Clone, Debug, PartialEq)]
+enum MapPath {
+    Path(Vec<u8>),
+    Heap,
+    Stack,
+    TStack(u32),
+    Vdso,
+    Vvar,
+    Vsyscall,
+    Rollup,
+    Anonymous,
+    Vsys(u32),
+    Other(Vec<u8>),
+}
+
+#[derive(Clone, Debug, PartialEq)]
+struct MapEntry {
+    lo: u64,
+    hi: u64,
+    /// READ 1, WRITE 2, EXECUTE 4, SHARED 8, PRIVATE 16
+    perms: u8,
+    offset: u64,
+    major: u32,
+    minor: u32,
+    inode: u64,
+    path: MapPath,
+}
+
+impl MapPath {
+    fn text(&self) -> String {
+        match self {
+            MapPath::Path(p) => format!("p{}", hex(p)),
+            MapPath::Heap => "h".into(),
+            MapPath::Stack => "s".into(),
+            MapPath::TStack(t) => format!("t{t}"),
+            MapPath::Vdso => "d".into(),
+            MapPath::Vvar => "v".into(),
+            MapPath::Vsyscall => "y".into(),
+            MapPath::Rollup => "r".into(),
+            MapPath::Anonymous => "a".into(),
+            MapPath::Vsys(k) => format!("k{k}"),
+            MapPath::Other(o) => format!("o{}", hex(o)),
+        }
+    }
+    fn parse(s: &str) -> Option<MapPath> {
+        Some(match s {
+            "h" => MapPath::Heap,
+            "s" => MapPath::Stack,
+            "d" => MapPath::Vdso,
+            "v" => MapPath::Vvar,
+            "y" => MapPath::Vsyscall,
+            "r" => MapPath::Rollup,
+            "a" => MapPath::Anonymous,
+            _ => {
+                let (k, rest) = s.split_at(1);
+                match k {
+                    "t" => MapPath::TStack(rest.parse().ok()?),
+                    "k" => MapPath::Vsys(rest.parse().ok()?),
+                    "o" => MapPath::Other(unhex(rest)?),
+                    "p" => MapPath::Path(unhex(rest)?),
+                    _ => return None,
+                }
+            }
+        })
+    }
+    /// the column as a writer of `/proc/<pid>/maps` spells it
+    fn column(&self) -> Vec<u8> {
+        match self {
+            MapPath::Path(p) => p.clone(),
+            MapPath::Heap => b"[heap]".to_vec(),
+            MapPath::Stack => b"[stack]".to_vec(),
+            MapPath::TStack(t) => format!("[stack:{t}]").into_bytes(),
+            MapPath::Vdso => b"[vdso]".to_vec(),
+            MapPath::Vvar => b"[vvar]".to_vec(),
+            MapPath::Vsyscall => b"[vsyscall]".to_vec(),
+            MapPath::Rollup => b"[rollup]".to_vec(),
+            MapPath::Anonymous => vec![],
+            MapPath::Vsys(k) => format!("/SYSV{k:08x}").into_bytes(),
+            MapPath::Other(o) => [b"[".as_slice(), o, b"]"].concat(),
+        }
+    }
+    /// is the column spelled unambiguously (a file path that does not look like a pseudo-path, no white
+    /// space at either end, no line break, UTF-8)?
+    fn well_formed(&self) -> bool {
+        let col = self.column();
+        if col.contains(&b'\n') || std::str::from_utf8(&col).is_err() {
+            return false;
+        }
+        let fixed: [&[u8]; 6] = [b"[heap]", b"[stack]", b"[vdso]", b"[vvar]", b"[vsyscall]", b"[rollup]"];
+        match self {
+            MapPath::Path(p) => {
+                let printable = |c: u8| (0x21..=0x7e).contains(&c);
+                !p.is_empty()
+                    && printable(p[0])
+                    && printable(*p.last().unwrap())
+                    && !fixed.contains(&&p[..])
+                    && !p.starts_with(b"[stack:")
+                    && !(p[0] == b'[' && *p.last().unwrap() == b']')
+                    && !p.starts_with(b"/SYSV")
+            }
+            MapPath::Other(_) => !fixed.contains(&&col[..]) && !col.starts_with(b"[stack:"),
+            _ => true,
+        }
+    }
+}
+
+fn maps_text(ms: &[MapEntry]) -> String {
+    let items: Vec<String> = ms
+        .iter()
+        .map(|x| format!("{},{},{},{},{},{},{},{}", x.lo, x.hi, x.perms, x.offset, x.major, x.minor, x.inode, x.path.text()))
+        .collect();
+    format!("[{}]", items.join(";"))
+}
+fn parse_maps(s: &str) -> Option<Option<Vec<MapEntry>>> {
+    if s == "-" {
+        return Some(None);
+    }
+    let inner = s.strip_prefix('[')?.strip_suffix(']')?;
+    let v = list(inner, |p| match p {
+        [lo, hi, perms, off, maj, min, ino, path] => {
+            let e = MapEntry {
+                lo: lo.parse().ok()?,
+                hi: hi.parse().ok()?,
+                perms: perms.parse().ok().filter(|p| *p < 32)?,
+                offset: off.parse().ok()?,
+                major: maj.parse().ok().filter(|v| *v < 1 << 31)?,
+                minor: min.parse().ok().filter(|v| *v < 1 << 31)?,
+                inode: ino.parse().ok()?,
+                path: MapPath::parse(path)?,
+            };
+            e.path.well_formed().then_some(e)
+        }
+        _ => None,
+    })?;
+    Some(Some(v))
+}
+
+fn perms_text(p: u8) -> String {
+    let mut s = String::new();
+    s.push(if p & 1 != 0 { 'r' } else { '-' });
+    s.push(if p & 2 != 0 { 'w' } else { '-' });
+    s.push(if p & 4 != 0 { 'x' } else { '-' });
+    if p & 8 != 0 {
+        s.push('s');
+    }
+    if p & 16 != 0 {
+        s.push('p');
+    }
+    if p & 24 == 0 {
+        s.push('-');
+    }
+    s
+}
+
+/// The maps text as a FOREIGN writer produces it — the kernel's `%08lx-%08lx %c%c%c%c %08llx %02x:%02x %lu `
+/// with the path padded to column 73 — varied per line (deterministically from the entry) within what
+/// the format allows: upper-case hex, an explicit `+`, leading zeros, other padding, CRLF, a missing
+/// final newline.
+fn foreign_maps(ms: &[MapEntry]) -> Vec<u8> {
+    let mut out = Vec::new();
+    for (i, x) in ms.iter().enumerate() {
+        let style = fnv64(format!("{i}:{}:{}:{}", x.lo, x.hi, x.inode).as_bytes());
+        let hexn = |v: u64, width: usize, k: u64| -> String {
+            // (a line that BEGINS with an upper-case letter is an smaps attribute to the parser: the first
+            // field keeps the kernel's lower case and has no sign)
+            match (style >> k) & 3 {
+                0 => format!("{:0w$x}", v, w = width),
+                1 => format!("{:x}", v),
+                2 if k != 0 => format!("{:0w$X}", v, w = width),
+                3 if k != 0 => format!("+{:x}", v),
+                _ => format!("{:0w$x}", v, w = 2 * width),
+            }
+        };
+        let mut line = format!(
+            "{}-{} {} {} {}:{} {}{} ",
+            hexn(x.lo, 8, 0),
+            hexn(x.hi, 8, 2),
+            perms_text(x.perms),
+            hexn(x.offset, 8, 4),
+            hexn(x.major as u64, 2, 6),
+            hexn(x.minor as u64, 2, 8),
+            if (style >> 10) & 3 == 0 { "+" } else { "" },
+            x.inode
+        )
+        .into_bytes();
+        let col = x.path.column();
+        if !col.is_empty() {
+            match (style >> 12) & 3 {
+                0 => {
+                    while line.len() < 73 {
+                        line.push(b' ');
+                    }
+                }
+                1 => line.extend(b"\t  "),
+                _ => {}
+            }
+        }
+        line.extend(&col);
+        if (style >> 14) & 3 == 0 && !col.is_empty() {
+            line.extend(b"  ");
+        }
+        out.extend(line);
+        let last = i + 1 == ms.len();
+        match (style >> 16) & 7 {
+            0 => out.extend(b"\r\n"),
+            1 if last => {}
+            _ => out.push(b'\n'),
+        }
+    }
+    out
+}
+
 #[derive(Clone, Debug, PartialEq, Default)]
 struct Model {
     flags: u64,
@@ -476,6 +689,7 @@ struct Model {
     extra: Vec<(u32, Blob)>,
     misc: Option<Misc>,
     handles: Option<Handles>,
+    maps: Option<Vec<MapEntry>>,
 }
 
 fn name_text(cs: &[u32]) -> String {
@@ -596,8 +810,9 @@ impl Model {
         let d: Vec<String> = self.extra.iter().map(|(ty, b)| format!("{},{}", ty, b.text)).collect();
         let y = self.misc.as_ref().map(|y| y.text()).unwrap_or("-".into());
         let h = self.handles.as_ref().map(|h| h.text()).unwrap_or("-".into());
+        let l = self.maps.as_ref().map(|l| maps_text(l)).unwrap_or("-".into());
         format!(
-            "roundtrip fl={} pad={} T={} M={} R={} I={} N={} U={} X={} S={} D={} Y={} H={}",
+            "roundtrip fl={} pad={} T={} M={} R={} I={} N={} U={} X={} S={} D={} Y={} H={} L={}",
             self.flags,
             self.pad as u8,
             t.join(";"),
@@ -610,7 +825,8 @@ impl Model {
             s,
             d.join(";"),
             y,
-            h
+            h,
+            l
         )
     }
 
@@ -728,6 +944,8 @@ impl Model {
                 m.misc = Misc::parse(y)?;
             } else if let Some(h) = t.strip_prefix("H=") {
                 m.handles = Handles::parse(h)?;
+            } else if let Some(l) = t.strip_prefix("L=") {
+                m.maps = parse_maps(l)?;
             } else {
                 return None;
             }
@@ -1021,6 +1239,10 @@ fn build_synth(m: &Model, be: bool, mem64: bool) -> Option<Vec<u8>> {
             }
             d = d.add_stream(synth::SimpleStream { stream_type: md::MINIDUMP_STREAM_TYPE::HandleDataStream as u32, section: sec });
         }
+    }
+    // Linux maps: text written here the way the kernel (or a sloppier writer) spells it, handed to synth
+    if let Some(ms) = &m.maps {
+        d = d.set_linux_maps(&foreign_maps(ms));
     }
     // misc info: through synth's MiscStream when it can express the model, else field by field
     if let Some(y) = &m.misc {
@@ -1466,6 +1688,64 @@ fn real_report(bytes: &[u8], ids: &[u32]) -> String {
             let _ = write!(o, "[{}]", items.join(";"));
         }
     }
+    // Linux maps
+    o.push_str(" L=");
+    match dump.get_stream::<MinidumpLinuxMaps>() {
+        Err(e) => o.push_str(&err_name(&e)),
+        Ok(maps) => {
+            use procfs_core::process::MMapPath as P;
+            use std::os::unix::ffi::OsStrExt;
+            let entries: Vec<MapEntry> = maps
+                .iter()
+                .map(|r| {
+                    let x = &r.map;
+                    MapEntry {
+                        lo: x.address.0,
+                        hi: x.address.1,
+                        perms: x.perms.bits(),
+                        offset: x.offset,
+                        major: x.dev.0 as u32,
+                        minor: x.dev.1 as u32,
+                        inode: x.inode,
+                        path: match &x.pathname {
+                            P::Path(p) => MapPath::Path(p.as_os_str().as_bytes().to_vec()),
+                            P::Heap => MapPath::Heap,
+                            P::Stack => MapPath::Stack,
+                            P::TStack(t) => MapPath::TStack(*t),
+                            P::Vdso => MapPath::Vdso,
+                            P::Vvar => MapPath::Vvar,
+                            P::Vsyscall => MapPath::Vsyscall,
+                            P::Rollup => MapPath::Rollup,
+                            P::Anonymous => MapPath::Anonymous,
+                            P::Vsys(k) => MapPath::Vsys(*k as u32),
+                            P::Other(s) => MapPath::Other(s.as_bytes().to_vec()),
+                        },
+                    }
+                })
+                .collect();
+            let mut probes = Vec::new();
+            for x in &entries {
+                let mut addrs = Vec::new();
+                if x.lo > 0 {
+                    addrs.push(x.lo - 1);
+                }
+                addrs.push(x.lo);
+                addrs.push(x.hi);
+                if x.hi < u64::MAX {
+                    addrs.push(x.hi + 1);
+                }
+                for a in addrs {
+                    // the index of the entry the lookup serves
+                    let found = maps.memory_info_at_address(a).and_then(|hit| maps.iter().position(|r| std::ptr::eq(r, hit)));
+                    probes.push(match found {
+                        None => format!("{a}:~"),
+                        Some(i) => format!("{a}:{i}"),
+                    });
+                }
+            }
+            let _ = write!(o, "{}|{}", maps_text(&entries), probes.join(","));
+        }
+    }
     o
 }
 
@@ -1730,6 +2010,17 @@ fn expected_report(m: &Model, be: bool, mem64: bool, as_code: bool) -> String {
             let _ = write!(o, " H=[{}]", items.join(";"));
         }
     }
+    match &m.maps {
+        // a raw stream of that type without a model of its contents: no claim (the model decoder and the
+        // real reader are still compared on it)
+        None if m.extra.iter().any(|(ty, _)| *ty == 0x47670009) => o.push_str(" L=?"),
+        None => o.push_str(" L=err StreamNotFound"),
+        Some(ms) => {
+            // the entries in file order; the address lookups are C08's subject (overlaps, the final
+            // address taken as inclusive): no claim here
+            let _ = write!(o, " L={}|?", maps_text(ms));
+        }
+    }
     o
 }
 
@@ -1784,6 +2075,11 @@ fn diff_reports(got: &str, exp: &str) -> Vec<(String, Vec<u64>)> {
             if !addrs.is_empty() {
                 bad.push((gk.clone(), addrs));
             }
+        } else if gk == "L" && ev == "?" {
+        } else if gk == "L" && ev.ends_with("|?") {
+            if gv.split('|').next() != ev.split('|').next() {
+                bad.push((gk.clone(), vec![]));
+            }
         } else if gv != ev {
             bad.push((gk.clone(), vec![]));
         }
@@ -1798,6 +2094,13 @@ const CLASS_TOP_UNLOADED: &str = "unloaded-module-at-top-of-address-space-fails-
 
 fn section_of(rep: &str, key: &str) -> Option<String> {
     sections(rep).into_iter().find(|(k, _)| k == key).map(|(_, v)| v)
+}
+
+/// does the model contain a region that extends BEYOND the top of the address space (base + size >
+/// 2^64)? No process has such memory: the model is outside the property's quantifier (and outside
+/// `WellFormed`), the case is counted as `pre-rejected:region-wraps`.
+fn region_wraps(m: &Model) -> bool {
+    m.regions.iter().any(|r| r.base as u128 + r.bytes.data.len() as u128 > 1u128 << 64)
 }
 
 /// does the model contain a region that ends exactly at 2^64?
@@ -1882,6 +2185,12 @@ impl Engine for Roundtrip {
             res.oracle.push(("bad-case".into(), "the case line does not parse".into()));
             return res;
         };
+        if region_wraps(&m) {
+            res.out = "pre-rejected:region-wraps".into();
+            res.tags.push("pre-rejected".into());
+            res.tags.push("pre-rejected:region-wraps".into());
+            return res;
+        }
         let ids = name_ids(&m);
         let mut outs = Vec::new();
         let total: usize = m.regions.iter().map(|r| r.bytes.data.len()).sum();
@@ -1922,7 +2231,7 @@ impl Engine for Roundtrip {
             // report comparison above decides: a raw extra served in its place would be reported
             // instead of the model's items. For any other type the LAST extra of that type is served.
             if let Ok(dump) = Minidump::<&[u8]>::read(&bytes[..]) {
-                let core = |ty: u32| [3u32, 4, 5, 9, 16, 24, 14].contains(&ty) || (ty == 6 && m.exc.is_some()) || (ty == 7 && m.sys.is_some()) || (ty == 15 && m.misc.is_some()) || (ty == 12 && m.handles.is_some());
+                let core = |ty: u32| [3u32, 4, 5, 9, 16, 24, 14].contains(&ty) || (ty == 6 && m.exc.is_some()) || (ty == 7 && m.sys.is_some()) || (ty == 15 && m.misc.is_some()) || (ty == 12 && m.handles.is_some()) || (ty == 0x47670009 && m.maps.is_some());
                 let mut seen = Vec::new();
                 for (ty, _) in m.extra.iter() {
                     if core(*ty) || seen.contains(ty) {
@@ -1947,7 +2256,7 @@ impl Engine for Roundtrip {
         // definition the GUID in the dump's byte order, so that field is compared per byte order
         // against `expected_report` above and masked here)
         for (a, b) in [(0usize, 1usize), (2, 3)] {
-            if outs.len() == 4 {
+            if outs.len() >= 4 {
                 let strip = |s: &str| -> String {
                     let s = s.splitn(2, ' ').nth(1).unwrap_or("").to_string();
                     if m.modules.iter().any(|x| matches!(x.cv, Some(Cv::Elf(_)))) {
@@ -1961,6 +2270,10 @@ impl Engine for Roundtrip {
                 }
             }
         }
+        // fifth part: what `same` must know about the model. `raw-L`: a raw LinuxMaps stream without a model
+        // of its contents (outside `WellFormed`): `report m e f` makes no claim about that section.
+        let raw_l = m.maps.is_none() && m.extra.iter().any(|(ty, _)| *ty == 0x47670009);
+        outs.push(if raw_l { "raw-L".to_string() } else { "-".to_string() });
         res.out = outs.join(" ## ");
         res.nontrivial = !m.threads.is_empty() || !m.modules.is_empty() || !m.regions.is_empty();
         res.tags.push(format!("threads:{}", bucket(m.threads.len())));
@@ -1992,6 +2305,15 @@ impl Engine for Roundtrip {
         if top_region(&m) {
             res.tags.push("region-at-top".into());
         }
+        match &m.maps {
+            None => res.tags.push("maps:none".into()),
+            Some(ms) => {
+                res.tags.push(format!("maps:{}", bucket(ms.len())));
+                for x in ms {
+                    res.tags.push(format!("mappath:{}", x.path.text().chars().next().unwrap_or('?')));
+                }
+            }
+        }
         match &m.handles {
             None => res.tags.push("handles:none".into()),
             Some(h) => {
@@ -2013,6 +2335,9 @@ impl Engine for Roundtrip {
 
     fn model_request(&self, case: &str) -> Option<String> {
         let m = Model::parse(case)?;
+        if region_wraps(&m) {
+            return None;
+        }
         let mut hexes = Vec::new();
         for (be, mem64) in CFGS {
             let bytes = catch(|| build_synth(&m, be, mem64)).ok().flatten()?;
@@ -2026,9 +2351,17 @@ impl Engine for Roundtrip {
     fn same(&self, impl_out: &str, model_out: &str) -> bool {
         let i: Vec<&str> = impl_out.split(" ## ").collect();
         let mo: Vec<&str> = model_out.split(" ## ").collect();
-        if i.len() != 4 || mo.len() != 12 {
+        if i.len() != 5 || mo.len() != 12 {
             return false;
         }
+        let raw_l = i[4] == "raw-L";
+        // drop the L section (see `raw-L`)
+        let mask = |rep: &str| -> String {
+            if !raw_l {
+                return rep.to_string();
+            }
+            sections(rep).into_iter().filter(|(k, _)| k != "L").map(|(k, v)| format!("{k}={v}")).collect::<Vec<_>>().join(" ")
+        };
         // 1. the model decoder agrees with the real reader on the foreign serializer's files
         if (0..4).any(|k| i[k] != mo[k]) {
             return false;
@@ -2052,7 +2385,7 @@ impl Engine for Roundtrip {
                 Ok(r) => r,
                 Err(_) => return false,
             };
-            if real_on_lean != mo[8 + k] {
+            if mask(&real_on_lean) != mask(mo[8 + k]) {
                 return false;
             }
             if real_on_lean != i[k] {
@@ -2102,7 +2435,23 @@ impl Engine for Roundtrip {
                 }
             }
         }
-        for f in 0..6 {
+        if let Some(ms) = &m.maps {
+            let mut i = 0;
+            let mut cur = ms.clone();
+            while i < cur.len() {
+                let mut c = m.clone();
+                let mut mc = cur.clone();
+                mc.remove(i);
+                c.maps = Some(mc.clone());
+                if still_fails(&c.line()) {
+                    m = c;
+                    cur = mc;
+                } else {
+                    i += 1;
+                }
+            }
+        }
+        for f in 0..7 {
             let mut c = m.clone();
             match f {
                 0 => c.exc = None,
@@ -2110,6 +2459,7 @@ impl Engine for Roundtrip {
                 2 => c.pad = false,
                 3 => c.misc = None,
                 4 => c.handles = None,
+                5 => c.maps = None,
                 _ => c.flags = 0,
             }
             if c != m && still_fails(&c.line()) {
@@ -2390,6 +2740,8 @@ fn gen_model(rng: &mut Rng, tier: Tier, k: usize) -> Model {
                 b
             }
         };
+        // a region may end exactly at 2^64 (the known finding), never beyond
+        let base = if len > 0 && base as u128 + len as u128 > 1u128 << 64 { u64::MAX - len + 1 } else { base };
         m.regions.push(Region { base, bytes });
     }
     for _ in 0..count(rng) {
@@ -2479,6 +2831,131 @@ fn gen_model(rng: &mut Rng, tier: Tier, k: usize) -> Model {
         }
         m.misc = Some(Misc { ver: ver as u8, tail, vals });
     }
+    // Linux maps: every spelling of the path column, addresses anywhere (hi < lo included), all permission sets
+    if rng.chance(1, 2) {
+        let n = count(rng);
+        let mut ms = Vec::new();
+        let mut next: u64 = 0x5555_0000_0000 + rng.below(0x1000) * 0x1000;
+        for _ in 0..n {
+            let len = (1 + rng.below(64)) * 0x1000;
+            let (lo, hi) = match rng.below(8) {
+                0 => (rand_u64(rng), rand_u64(rng)),
+                1 => (u64::MAX - len, u64::MAX),
+                _ => {
+                    let lo = next;
+                    next += len + rng.below(2) * 0x1000;
+                    (lo, lo + len)
+                }
+            };
+            let path = loop {
+                let p = match rng.below(14) {
+                    0 => MapPath::Heap,
+                    1 => MapPath::Stack,
+                    2 => MapPath::TStack(rand_u32(rng)),
+                    3 => MapPath::Vdso,
+                    4 => MapPath::Vvar,
+                    5 => MapPath::Vsyscall,
+                    6 => MapPath::Rollup,
+                    7 | 8 => MapPath::Anonymous,
+                    9 => MapPath::Vsys(rand_u32(rng)),
+                    10 => {
+                        let pool: [&str; 6] = ["anon:dalvik-main space", "anon_inode:[perf_event]", "heap", "stack:", "κόσμε", ""];
+                        let s: &&str = rng.pick(&pool[..]);
+                        MapPath::Other(s.as_bytes().to_vec())
+                    }
+                    _ => {
+                        let pool: [&str; 9] = [
+                            "/usr/lib/x86_64-linux-gnu/libc.so.6",
+                            "/bin/cat",
+                            "/home/u/my file (deleted)",
+                            "/opt/κόσμε/日本語.so",
+                            "/SYS",
+                            "anon_inode:i915.gem",
+                            "/memfd:x\ty (deleted)",
+                            "socket:[12345]x",
+                            "[x",
+                        ];
+                        let s: &&str = rng.pick(&pool[..]);
+                        MapPath::Path(s.as_bytes().to_vec())
+                    }
+                };
+                if p.well_formed() {
+                    break p;
+                }
+            };
+            ms.push(MapEntry {
+                lo,
+                hi,
+                perms: rng.below(32) as u8,
+                offset: if rng.chance(1, 2) { 0 } else { rand_u64(rng) },
+                major: if rng.chance(1, 2) { rng.below(256) as u32 } else { rand_u32(rng) >> 1 },
+                minor: if rng.chance(1, 2) { rng.below(256) as u32 } else { rand_u32(rng) >> 1 },
+                inode: if rng.chance(1, 3) { 0 } else { rand_u64(rng) },
+                path,
+            });
+        }
+        m.maps = Some(ms);
+    }
+    // now and then, instead: a raw LinuxMaps stream with lines a writer should not produce (missing
+    // fields, bad numbers, smaps attributes, stray white space, invalid UTF-8) — only the model decoder
+    // vs the real reader is compared on those
+    if m.maps.is_none() && rng.chance(1, 6) {
+        let good = "00400000-0040b000 r-xp 00000000 08:01 1234 /bin/cat";
+        let pool: [&[u8]; 40] = [
+            good.as_bytes(),
+            b"00400000-0040b000 r-xp 00000000 08:01 1234",
+            b"00400000-0040b000 r-xp 00000000 08:01 1234 ",
+            b"00400000-0040b000  r-xp 00000000 08:01 1234 /x",
+            b"",
+            b"\r",
+            b"00400000 r-xp 00000000 08:01 1234 /x",
+            b"00400000-0040b000-77 r-xp 00000000 08:01 1234 /x",
+            b"-0040b000 r-xp 00000000 08:01 1234 /x",
+            b"00400000-1ffffffffffffffff r-xp 00000000 08:01 1234 /x",
+            b"0x400000-0040b000 r-xp 00000000 08:01 1234 /x",
+            b"00400000-0040b000 rwxsp-?R 00000000 08:01 1234 /x",
+            b"00400000-0040b000 r-xp +10 08:01 1234 /x",
+            b"00400000-0040b000 r-xp 10 -8:01 1234 /x",
+            b"00400000-0040b000 r-xp 10 80000000:01 1234 /x",
+            b"00400000-0040b000 r-xp 10 -80000000:-1 1234 /x",
+            b"00400000-0040b000 r-xp 10 -80000001:1 1234 /x",
+            b"00400000-0040b000 r-xp 10 08 1234 /x",
+            b"00400000-0040b000 r-xp 10 08:01:02 1234 /x",
+            b"00400000-0040b000 r-xp 10 08:01 12a4 /x",
+            b"00400000-0040b000 r-xp 10 08:01 18446744073709551616 /x",
+            b"00400000-0040b000 r-xp 10 08:01 1234 [stack:77]",
+            b"00400000-0040b000 r-xp 10 08:01 1234 [stack:77:88]",
+            b"00400000-0040b000 r-xp 10 08:01 1234 [stack:]",
+            b"00400000-0040b000 r-xp 10 08:01 1234 [stack:x]",
+            b"00400000-0040b000 r-xp 10 08:01 1234 [stack:4294967296]",
+            b"00400000-0040b000 r-xp 10 08:01 1234 [stack:",
+            b"00400000-0040b000 r-xp 10 08:01 1234 [stack:7",
+            b"00400000-0040b000 r-xp 10 08:01 1234 [stack:+7]",
+            b"00400000-0040b000 r-xp 10 08:01 1234 /SYSV0000zzzz (deleted)",
+            b"00400000-0040b000 r-xp 10 08:01 1234 /SYSVffffffff",
+            b"00400000-0040b000 r-xp 10 08:01 1234 /SYSV+1234567x",
+            "00400000-0040b000 r-xp 10 08:01 1234 \u{a0}\u{2003}/x y\u{3000}\u{85}".as_bytes(),
+            "00400000-0040b000 r-xp 10 08:01 1234 \u{2028}[heap]\u{1680}".as_bytes(),
+            b"00400000-0040b000 r-xp 10 08:01 1234 \xff\xfe",
+            b"Size:                  4 kB",
+            b"Rss: 18446744073709551615",
+            b"Pss: x kB",
+            b"VmFlags: rd ex mr mw me dw",
+            b"KernelPageSize",
+        ];
+        let mut text = Vec::new();
+        let n = 1 + rng.below(4);
+        for i in 0..n {
+            let l: &&[u8] = if i == 0 && rng.chance(2, 3) { &pool[0] } else { rng.pick(&pool[..]) };
+            text.extend_from_slice(l);
+            match rng.below(6) {
+                0 => text.extend(b"\r\n"),
+                1 if i + 1 == n => {}
+                _ => text.push(b'\n'),
+            }
+        }
+        m.extra.push((0x47670009, Blob::raw(text)));
+    }
     // handle data: both descriptor kinds, absent / empty / non-BMP names, chains of 0..5 object infos
     if rng.chance(1, 2) {
         let v2 = rng.chance(1, 2);
@@ -2509,6 +2986,9 @@ fn gen_model(rng: &mut Rng, tier: Tier, k: usize) -> Model {
             }
             if m.handles.is_some() {
                 tys.push(12);
+            }
+            if m.maps.is_some() {
+                tys.push(0x47670009);
             }
             if m.exc.is_some() {
                 tys.push(6);
